@@ -1,7 +1,40 @@
 use crate::report::{Disagreement, Run, Tier};
 use serde_json::Value;
 
+pub mod c01;
+pub mod c02;
+pub mod c03;
+pub mod c04;
+pub mod c05;
+pub mod c06;
+pub mod c07;
+pub mod c08;
+pub mod c09;
+pub mod c10;
+pub mod c11;
+pub mod c12;
+pub mod c13;
+pub mod c14;
+pub mod c15;
+pub mod c16;
+pub mod c17;
+pub mod c18;
+pub mod c19;
+pub mod c20;
+pub mod c21;
+pub mod c22;
 pub mod c23;
+pub mod c24;
+pub mod c25;
+pub mod c26;
+pub mod c27;
+pub mod c28;
+pub mod c29;
+pub mod c30;
+pub mod c31;
+pub mod c32;
+pub mod c33;
+pub mod c34;
 
 pub struct Prop {
     pub id: &'static str,
@@ -11,7 +44,40 @@ pub struct Prop {
 
 pub fn registry() -> Vec<Prop> {
     vec![
+        Prop { id: "C01", run: c01::run, replay: c01::replay },
+        Prop { id: "C02", run: c02::run, replay: c02::replay },
+        Prop { id: "C03", run: c03::run, replay: c03::replay },
+        Prop { id: "C04", run: c04::run, replay: c04::replay },
+        Prop { id: "C05", run: c05::run, replay: c05::replay },
+        Prop { id: "C06", run: c06::run, replay: c06::replay },
+        Prop { id: "C07", run: c07::run, replay: c07::replay },
+        Prop { id: "C08", run: c08::run, replay: c08::replay },
+        Prop { id: "C09", run: c09::run, replay: c09::replay },
+        Prop { id: "C10", run: c10::run, replay: c10::replay },
+        Prop { id: "C11", run: c11::run, replay: c11::replay },
+        Prop { id: "C12", run: c12::run, replay: c12::replay },
+        Prop { id: "C13", run: c13::run, replay: c13::replay },
+        Prop { id: "C14", run: c14::run, replay: c14::replay },
+        Prop { id: "C15", run: c15::run, replay: c15::replay },
+        Prop { id: "C16", run: c16::run, replay: c16::replay },
+        Prop { id: "C17", run: c17::run, replay: c17::replay },
+        Prop { id: "C18", run: c18::run, replay: c18::replay },
+        Prop { id: "C19", run: c19::run, replay: c19::replay },
+        Prop { id: "C20", run: c20::run, replay: c20::replay },
+        Prop { id: "C21", run: c21::run, replay: c21::replay },
+        Prop { id: "C22", run: c22::run, replay: c22::replay },
         Prop { id: "C23", run: c23::run, replay: c23::replay },
+        Prop { id: "C24", run: c24::run, replay: c24::replay },
+        Prop { id: "C25", run: c25::run, replay: c25::replay },
+        Prop { id: "C26", run: c26::run, replay: c26::replay },
+        Prop { id: "C27", run: c27::run, replay: c27::replay },
+        Prop { id: "C28", run: c28::run, replay: c28::replay },
+        Prop { id: "C29", run: c29::run, replay: c29::replay },
+        Prop { id: "C30", run: c30::run, replay: c30::replay },
+        Prop { id: "C31", run: c31::run, replay: c31::replay },
+        Prop { id: "C32", run: c32::run, replay: c32::replay },
+        Prop { id: "C33", run: c33::run, replay: c33::replay },
+        Prop { id: "C34", run: c34::run, replay: c34::replay },
     ]
 }
 
